@@ -13,7 +13,7 @@
    number of cells the frame had when the scope was formed: the reference evaluator only sees that prefix (lexical
    scoping), the Go code sees the whole map (a closure made while a dolist/dotimes/do* frame is still being filled
    later sees the cells added afterwards).  No definition in this file is mode-dependent except through the small
-   functions [store_red], [truthy], [or_step], [last_red], [locate_m], [short_args]:
+   functions [store_red], [truthy], [last_red], [locate_m], [short_args]:
    they are the complete list of places where M and S differ.
 
    Side effects are calls of the harness-defined function (tr k e): evaluates e, appends k to the trace, returns
@@ -193,13 +193,10 @@ Definition truthy (m : mode) (v : val) : out bool :=
   | Ref => Ok (negb (is_nil (primary v)))
   | Chk => if is_values v && is_nil (primary v) then Er EDev else Ok (negb (is_nil v))
   end.
-(* or, a form that is not the last one: Some r = stop with r *)
+(* or, a form that is not the last one: Some r = stop with r.  The primary value is tested and returned (the same in
+   every mode since the repair of or.go; the mode argument is kept for uniformity with the other switches) *)
 Definition or_step (m : mode) (v : val) : out (option val) :=
-  match m with
-  | Slip => Ok (if is_nil v then None else Some v)
-  | Ref => Ok (if is_nil (primary v) then None else Some (primary v))
-  | Chk => if is_values v then Er EDev else Ok (if is_nil v then None else Some v)
-  end.
+  Ok (if is_nil (primary v) then None else Some (primary v)).
 (* setq returns the object it evaluated, mapcar stores what the call returned, a cond clause without forms returns
    its test object: the language takes the primary value, Go keeps the Values object *)
 Definition last_red (m : mode) (v : val) : out val :=
